@@ -428,8 +428,9 @@ def export_prefixed(pref: Prefixed) -> vlsir.Prefixed:
     # Export the metric prefix
     prefix = export_prefix(pref.prefix)
 
-    # And export the numeric part. Use Vlsir's `integer` variant for Decimal values which equal integers, and strings otherwise.
-    if pref.number == int(pref.number):
+    # And export the numeric part. Use Vlsir's `integer` variant for Decimal values which equal integers
+    # (and fit in its 64 bits), and strings otherwise.
+    if pref.number == int(pref.number) and -(2**63) <= int(pref.number) < 2**63:
         return vlsir.Prefixed(int64_value=int(pref.number), prefix=prefix)
     return vlsir.Prefixed(string_value=str(pref.number), prefix=prefix)
 
